@@ -18,7 +18,7 @@ JOBS = int(os.environ.get("VERIF_JOBS", "14"))
 SEED = int(os.environ.get("VERIF_SEED", "0") or 0)
 GUARD = "NEATVI_VERIF"
 CHECK_FLAGS = ["--bounds-check", "--pointer-check", "--signed-overflow-check",
-               "--pointer-overflow-check", "--div-by-zero-check",
+               "--div-by-zero-check",
                "--no-malloc-may-fail", "--drop-unused-functions"]
 THOROUGH_FLAGS = ["--undefined-shift-check"]
 DEFAULT_TIMEOUT = 600
